@@ -303,20 +303,22 @@ Definition submit_tasks (ts : list itask) : rerr + list mev :=
             end))
   end.
 
+(* the loop of Master._request_cb that flags executable tasks:
+   task['description']['mode'] raises KeyError when either key is missing *)
+Fixpoint mscan (l : list itask) (seen : list Z) : list Z * bool :=
+  match l with
+  | [] => (seen, true)
+  | t :: r =>
+      if negb (snd (fst t)) then (seen, false)
+      else match snd t with
+           | None => (seen, false)
+           | Some m => mscan r (if is_executable m then seen ++ [i_uid t] else seen)
+           end
+  end.
+
 (* Master._request_cb(tasks): (uids flagged raptor_seen, events) *)
 Definition master_request (ts : list itask) : list Z * list mev :=
-  (* task['description']['mode'] : KeyError when either key is missing *)
-  let fix scan (l : list itask) (seen : list Z) : list Z * bool :=
-    match l with
-    | [] => (seen, true)
-    | t :: r =>
-        if negb (snd (fst t)) then (seen, false)
-        else match snd t with
-             | None => (seen, false)
-             | Some m => scan r (if is_executable m then seen ++ [i_uid t] else seen)
-             end
-    end in
-  let '(seen, ok) := scan ts [] in
+  let '(seen, ok) := mscan ts [] in
   if negb ok then (seen, [MRaise KeyError])
   else match submit_tasks ts with
        | inr evs => (seen, evs)
@@ -346,8 +348,11 @@ Definition w_del (k : Z) (w : world) : world :=        (* os.environ.pop(k, None
   | Some _ => mkWorld (eremove k (py_env w))
                       (if bound w then eremove k (pr_env w) else pr_env w) (bound w)
   end.
-Definition w_update (e : env) (w : world) : world :=   (* os.environ.update(e) / for k,v in e.items() *)
-  fold_left (fun a kv => w_set (fst kv) (snd kv) a) e w.
+(* os.environ.update(e) / for k, v in e.items(): os.environ[k] = v.  A dict
+   has each key once, so the order of application is immaterial; applying the
+   list back to front makes the first binding of a key win, as in elookup. *)
+Definition w_update (e : env) (w : world) : world :=
+  fold_right (fun kv a => w_set (fst kv) (snd kv) a) w e.
 Definition w_clear (w : world) : world :=              (* os.environ.clear() *)
   mkWorld [] (if bound w then fold_left (fun a kv => eremove (fst kv) a) (py_env w) (pr_env w)
               else pr_env w) (bound w).
